@@ -841,7 +841,7 @@ def make_http_servers(options, supervisord):
         username = config['username']
         password = config['password']
 
-        if username:
+        if username is not None:
             # wrap the xmlrpc handler and tailhandler in an authentication
             # handler
             users = {username:password}
